@@ -22,7 +22,7 @@ MANIFEST = {
              '(it is guarded by the early return after the non-empty validation; that typestate argument is not mechanised).'),
 }
 EXPLANATION = 'Path conditions of all error pushes in the validators compared with the documented rules; ordering predicates evaluated abstractly; untrusted index taint.'
-RULES = ['C16-1.onload', 'C16-2.rules', 'C16-3.ascending', 'C16-4.noabort', 'C16-5.legacy']
+RULES = ['C16-1.onload', 'C16-2.rules', 'C16-3.ascending', 'C16-4.noabort', 'C16-5.legacy', 'C16-6.siblings']
 ASSUMPTIONS = ['serde reads the two file layouts as documented']
 
 SLICE_LINK = '<[Link] as ObjState>::validate'
@@ -116,6 +116,62 @@ DOC = [
 ]
 
 
+def siblings_shared(ctx):
+    """entry point for other rule sets (C17): validators analysed over all paths, then the sibling comparison"""
+    prog = ctx.prog
+    eng = engine(ctx)
+    for f in prog.by_id:
+        if f.endswith('ObjState>::validate') and f not in eng.all_paths:
+            eng.all_paths.add(f)
+            eng.ana.pop(f, None); eng.summ.pop(f, None)
+    siblings(ctx)
+
+
+def siblings(ctx):
+    """C16-6.siblings: validators of the same data in its three guises — T, &T and the legacy twin OldT — must agree on every
+    error they raise and on the condition under which they raise it (the owned, the borrowed and the legacy form of one
+    file section are validated by whichever impl the load path happens to reach)"""
+    prog = ctx.prog
+    fams = {}
+    for fid in sorted(prog.by_id):
+        m = re.match(r'^<(&?)(?:[\w]+::)*(\w+) as ObjState>::validate$', fid)
+        if not m or prog.by_id[fid].test:
+            continue
+        base = m.group(2)
+        fam = base[3:] if base.startswith('Old') and len(base) > 3 else base
+        fams.setdefault(fam, []).append(fid)
+    n = 0
+    for fam, fids in sorted(fams.items()):
+        if len(fids) < 2:
+            continue
+        sigs = {}
+        for fid in fids:
+            an = engine(ctx).analysis(prog.by_id[fid])
+            if an.exit_state is None:
+                continue
+            sig = []
+            for k, what, pc, c in gates(an):
+                msg = ''
+                if k == 'push':
+                    for a_ in c.argvals[1:]:
+                        for x in walk(a_):
+                            if x[0] == 'str':
+                                msg = x[1]
+                nz = lambda t_: re.sub(r'\bOld', '', t_.replace('*(self)', 'self').replace('(*self)', 'self'))
+                sig.append((k, nz(what), msg, tuple((nz(cnd), pol) for cnd, pol in pc)))
+            sigs[fid] = sorted(sig)
+        ref = None
+        for fid in sorted(sigs):
+            if ref is None:
+                ref = fid; continue
+            n += 1
+            same = sigs[fid] == sigs[ref]
+            diff = [x for x in sigs[fid] if x not in sigs[ref]] + [x for x in sigs[ref] if x not in sigs[fid]]
+            ctx.check(same, 'C16-6.siblings', '%s|%s' % (ref, fid), 'the two validators of %s raise the same errors under the same conditions' % fam,
+                      'they differ in: %s' % [(d[0], d[1] or d[2], [c_[0][:60] + ('' if c_[1] else ' (negated)') for c_ in d[3]]) for d in diff][:3], ctx.where(prog.by_id[fid]))
+    ctx.floor('sibling validator pairs compared', n, 2)
+
+
 def run(ctx):
     prog = ctx.prog
     eng = engine(ctx)
@@ -125,6 +181,7 @@ def run(ctx):
             eng.all_paths.add(f)
             eng.ana.pop(f, None); eng.summ.pop(f, None)
     onload(ctx)
+    siblings(ctx)
     # ------------------------------------------------------------ C16-2 rule inventory
     cache = {}
     n = 0
